@@ -40,11 +40,14 @@ VARIABLES l,        \* next line of TraceLog
           want,     \* [Files -> Seq(Int)] the contents the CALLERS gave the file (create size,
                     \* writes, truncations, allocations, O_TRUNC), accumulated from the
                     \* arguments of the calls - not from what the pool file was told
+          views,    \* fopen id -> set of contents the frozen reader may be a view of (the
+                    \* contents the file had while it was being opened), narrowed by every
+                    \* frozen read: one reader always shows one and the same contents
           amb       \* [Files -> record] calls that change the contents overlapped (parked
                     \* behind a frozen view and resumed together): their order is not known;
                     \* the group is judged when its last member returns (any order allowed)
 
-tvars == <<l, verdict, nonconf, links, descr, readers, content, pend, upl, expired, made, snap, want, amb>>
+tvars == <<l, verdict, nonconf, links, descr, readers, content, pend, upl, expired, made, snap, want, amb, views>>
 
 Line == TraceLog[l]
 IsEvent(e) == l <= Len(TraceLog) /\ Line.ev = e /\ l' = l + 1
@@ -148,6 +151,7 @@ ContentReason(md, pd, wt, am) ==
 
 InitVals ==
   /\ want = [f \in Files |-> <<>>]
+  /\ views = EmptyFn
   /\ amb = [f \in Files |-> NoGroup]
   /\ links = [f \in Files |-> 0]
   /\ descr = [f \in Files |-> NoDescr]
@@ -173,6 +177,7 @@ TReset ==
   /\ made' = [f \in Files |-> FALSE]
   /\ snap' = [f \in Files |-> [closed |-> 0, definite |-> TRUE, possible |-> TRUE]]
   /\ want' = [f \in Files |-> <<>>]
+  /\ views' = EmptyFn
   /\ amb' = [f \in Files |-> NoGroup]
   /\ verdict' = "ok"
   /\ UNCHANGED nonconf
@@ -183,7 +188,7 @@ TCall ==
   /\ pend' = FnPut(pend, Line.id, Line)
   /\ upl' = IF Line.op \in {"upload", "fopen"} THEN FnPut(upl, Line.id, NewUpl(Line.f, Line.op)) ELSE upl
   /\ verdict' = "ok"
-  /\ UNCHANGED <<nonconf, links, descr, readers, content, expired, made, snap, want, amb>>
+  /\ UNCHANGED <<nonconf, links, descr, readers, content, expired, made, snap, want, amb, views>>
 
 \* Status rules shared by the calls that can meet a released file.
 \*   ok on a released file                     -> violation
@@ -197,7 +202,7 @@ TRet ==
   /\ IsEvent("ret")
   /\ IF Line.id \notin DOMAIN pend
      THEN /\ verdict' = "NC:return-without-call"
-          /\ UNCHANGED <<links, descr, readers, pend, upl, made, want, amb>>
+          /\ UNCHANGED <<links, descr, readers, pend, upl, made, want, amb, views>>
      ELSE
        LET c == pend[Line.id]
            f == c.f
@@ -219,6 +224,14 @@ TRet ==
            up2 == IF Line.id \in DOMAIN upl THEN FnDel(upl, Line.id) ELSE upl
            md2 == IF op = "create" /\ st = "OK" THEN [made EXCEPT ![f] = TRUE] ELSE made
            pd2 == FnDel(pend, Line.id)
+           \* what a frozen reader shows: fixed when it was opened
+           vcands == IF op = "fread" /\ c.ref \in DOMAIN views
+                     THEN {x \in views[c.ref] : Slice(x, c.off, c.n) = Line.data} ELSE {}
+           vw2 == IF op = "fopen" /\ st = "OK" THEN FnPut(views, Line.id, upl[Line.id].seen \cup {content[f]})
+                  ELSE IF op = "fread" /\ st = "OK" /\ c.ref \in DOMAIN views /\ vcands # {}
+                       THEN [views EXCEPT ![c.ref] = vcands]
+                  ELSE IF op = "fclose" /\ c.ref \in DOMAIN views THEN FnDel(views, c.ref)
+                  ELSE views
            \* the callers' view of the contents
            others == PendingMut(pd2, f)
            gops == IF st = "OK" THEN Append(amb[f].ops, [c |-> c, r |-> Line]) ELSE amb[f].ops
@@ -272,7 +285,9 @@ TRet ==
                     THEN "C16:upload-did-not-wait-for-writers"
                     ELSE StaleReason("frozen-open", f, st, live)
                [] op = "fread" ->
-                    IF st = "OK" /\ Line.data # Slice(content[f], c.off, c.n)
+                    IF st = "OK" /\ c.ref \in DOMAIN views /\ vcands = {}
+                    THEN "C16:frozen-view-changed-while-open"
+                    ELSE IF st = "OK" /\ Line.data # Slice(content[f], c.off, c.n)
                     THEN "C16:frozen-read-returned-wrong-contents" ELSE ""
                [] op = "fclose" -> IF readers[f] > 0 THEN "" ELSE "NC:fclose-without-reader"
                [] op = "stat" ->
@@ -284,7 +299,7 @@ TRet ==
                     ELSE StaleReason("stat", f, st, live)
                [] OTHER -> ""
        IN /\ links' = lk2 /\ descr' = ds2 /\ readers' = rd2 /\ upl' = up2 /\ made' = md2
-          /\ pend' = pd2 /\ want' = wt2 /\ amb' = am2
+          /\ pend' = pd2 /\ want' = wt2 /\ amb' = am2 /\ views' = vw2
           /\ verdict' = Pick(<<reason, CloseCheck(md2, lk2, ds2, rd2, up2), ContentReason(md2, pd2, wt2, am2)>>)
   /\ UNCHANGED <<nonconf, content, expired, snap>>
 
@@ -301,12 +316,12 @@ TPutBegin ==
                IF Cl(u.f) >= 1 THEN "C16:upload-proceeded-on-released-file"
                ELSE IF UploadMayWait(WritersMin(u.f), expired) THEN "C16:upload-did-not-wait-for-writers"
                ELSE "ok"
-  /\ UNCHANGED <<nonconf, links, descr, readers, content, pend, expired, made, snap, want, amb>>
+  /\ UNCHANGED <<nonconf, links, descr, readers, content, pend, expired, made, snap, want, amb, views>>
 
 TPutHalf ==
   /\ IsEvent("put_half")
   /\ verdict' = "ok"
-  /\ UNCHANGED <<nonconf, links, descr, readers, content, pend, upl, expired, made, snap, want, amb>>
+  /\ UNCHANGED <<nonconf, links, descr, readers, content, pend, upl, expired, made, snap, want, amb, views>>
 
 TPutEnd ==
   /\ IsEvent("put_end")
@@ -320,7 +335,7 @@ TPutEnd ==
                ELSE IF Line.data \notin u.seen THEN "C16:cas-bytes-never-were-file-contents"
                ELSE IF ~(u.hash = Line.cashash /\ u.dsize = Len(Line.data)) THEN "C16:put-digest-differs-from-cas-bytes"
                ELSE "ok"
-  /\ UNCHANGED <<nonconf, links, descr, readers, content, pend, expired, made, snap, want, amb>>
+  /\ UNCHANGED <<nonconf, links, descr, readers, content, pend, expired, made, snap, want, amb, views>>
 
 TPutClosed ==
   /\ IsEvent("put_closed")
@@ -329,7 +344,7 @@ TPutClosed ==
      ELSE LET up2 == [upl EXCEPT ![Line.id].phase = "closed"] IN
           /\ upl' = up2
           /\ verdict' = Pick(<<CloseCheck(made, links, descr, readers, up2)>>)
-  /\ UNCHANGED <<nonconf, links, descr, readers, content, pend, expired, made, snap, want, amb>>
+  /\ UNCHANGED <<nonconf, links, descr, readers, content, pend, expired, made, snap, want, amb, views>>
 
 -----------------------------------------------------------------------------
 (* The instrumented pool file.                                             *)
@@ -341,17 +356,17 @@ TPoolData ==
                IF upl[i].f = Line.f /\ upl[i].phase \in {"pre", "put"}
                THEN [upl[i] EXCEPT !.seen = @ \cup {Line.after}] ELSE upl[i]]
   /\ verdict' = "ok"
-  /\ UNCHANGED <<nonconf, links, descr, readers, pend, expired, made, snap, want, amb>>
+  /\ UNCHANGED <<nonconf, links, descr, readers, pend, expired, made, snap, want, amb, views>>
 
 TPoolClose ==
   /\ IsEvent("pool_close")
   /\ verdict' = IF Cl(Line.f) > 1 THEN "C16:backing-file-closed-twice" ELSE "ok"
-  /\ UNCHANGED <<nonconf, links, descr, readers, content, pend, upl, expired, made, snap, want, amb>>
+  /\ UNCHANGED <<nonconf, links, descr, readers, content, pend, upl, expired, made, snap, want, amb, views>>
 
 TPoolUseAfterClose ==
   /\ IsEvent("pool_uac")
   /\ verdict' = "C16:released-storage-touched"
-  /\ UNCHANGED <<nonconf, links, descr, readers, content, pend, upl, expired, made, snap, want, amb>>
+  /\ UNCHANGED <<nonconf, links, descr, readers, content, pend, upl, expired, made, snap, want, amb, views>>
 
 -----------------------------------------------------------------------------
 (* Harness events.                                                         *)
@@ -360,12 +375,12 @@ TDelayFire ==
   /\ IsEvent("delay_fire")
   /\ expired' = TRUE
   /\ verdict' = "ok"
-  /\ UNCHANGED <<nonconf, links, descr, readers, content, pend, upl, made, snap, want, amb>>
+  /\ UNCHANGED <<nonconf, links, descr, readers, content, pend, upl, made, snap, want, amb, views>>
 
 TNote ==
   /\ l <= Len(TraceLog) /\ Line.ev \in {"release", "fault", "end"} /\ l' = l + 1
   /\ verdict' = "ok"
-  /\ UNCHANGED <<nonconf, links, descr, readers, content, pend, upl, expired, made, snap, want, amb>>
+  /\ UNCHANGED <<nonconf, links, descr, readers, content, pend, upl, expired, made, snap, want, amb, views>>
 
 DataOps == Mutators \cup {"read"}
 
@@ -377,7 +392,7 @@ TPanic ==
                 ELSE "C16:real-code-panicked"
   /\ pend' = IF Line.id \in DOMAIN pend THEN FnDel(pend, Line.id) ELSE pend
   /\ upl' = IF Line.id \in DOMAIN upl THEN FnDel(upl, Line.id) ELSE upl
-  /\ UNCHANGED <<nonconf, links, descr, readers, content, expired, made, snap, want, amb>>
+  /\ UNCHANGED <<nonconf, links, descr, readers, content, expired, made, snap, want, amb, views>>
 
 \* After the driver gave up every reference, expired the delay and opened
 \* every gate, this call still has not returned.
@@ -386,7 +401,7 @@ TStuck ==
   /\ verdict' = IF Line.op \in {"upload", "fopen"} THEN "C16:upload-never-completed"
                 ELSE IF Line.op \in Mutators \cup {"open"} THEN "C16:writer-never-resumed"
                 ELSE "NC:operation-stuck"
-  /\ UNCHANGED <<nonconf, links, descr, readers, content, pend, upl, expired, made, snap, want, amb>>
+  /\ UNCHANGED <<nonconf, links, descr, readers, content, pend, upl, expired, made, snap, want, amb, views>>
 
 \* The driver's watchdog: a step never became quiescent (a call spins or
 \* blocks on a lock inside the real code) and the run was abandoned.  If a
@@ -403,7 +418,7 @@ THang ==
             /\ ~WriterMayWait(FrozenNow(readers, upl, pend[i].f))
        THEN "C16:writer-never-resumed"
        ELSE "NC:step-did-not-become-quiescent"
-  /\ UNCHANGED <<nonconf, links, descr, readers, content, pend, upl, expired, made, snap, want, amb>>
+  /\ UNCHANGED <<nonconf, links, descr, readers, content, pend, upl, expired, made, snap, want, amb, views>>
 
 \* Is a call that is parked at a quiescent point allowed to be parked?
 BlockReason(p) ==
@@ -440,7 +455,7 @@ TQuiesce ==
                          \/ {ps[i].id : i \in 1 .. Len(ps)} # DOMAIN pend
                       THEN nonconf + 1 ELSE nonconf
   /\ snap' = SnapOf(made, links, descr, readers, upl)
-  /\ UNCHANGED <<links, descr, readers, content, pend, upl, expired, made, want, amb>>
+  /\ UNCHANGED <<links, descr, readers, content, pend, upl, expired, made, want, amb, views>>
 
 TNext == TReset \/ TCall \/ TRet \/ TPutBegin \/ TPutHalf \/ TPutEnd \/ TPutClosed
          \/ TPoolData \/ TPoolClose \/ TPoolUseAfterClose
